@@ -681,13 +681,13 @@ class FullConstructor(SafeConstructor):
             listitems = value.get('listitems', [])
             dictitems = value.get('dictitems', {})
         instance = self.make_python_instance(suffix, node, args, kwds, newobj)
-        if state is not None:
-            self.set_python_instance_state(instance, state)
         if listitems:
             instance.extend(listitems)
         if dictitems:
             for key in dictitems:
                 instance[key] = dictitems[key]
+        if state is not None:
+            self.set_python_instance_state(instance, state)
         return instance
 
     def construct_python_object_new(self, suffix, node):
